@@ -16,6 +16,9 @@ def families(tier, seed):
         for tag, feats, ps in gen.c16_cases(sd):
             dt = feats.get("dt", 0.05)
             out.append(dict(tag=f"{tag}/s{sd}", features=feats, kind="population", ps=ps, T=10 * dt if dt >= 0.05 else 0.5, dt=dt))
+            # the same meaning under an adaptive solver (plain matrices, scalar weights, coupling edges, gamma-kernel delays)
+            if sd == seeds[0] and tag.split("-")[0] in ("P2", "P3", "P6", "P7", "P9"):
+                out.append(dict(tag=f"{tag}/s{sd}/scipy", features=dict(feats, solver="scipy"), kind="population", ps=ps, T=0.5, dt=0.01, solver="scipy"))
     return out
 
 
@@ -27,7 +30,8 @@ def main():
         rule="populations of n = 1,2,3,5 units with heterogeneous per-unit parameters AND initial states; signed, sparse, "
              "non-symmetric, non-square weight matrices between one or two populations; scalar weights (w * sum_j source_j); a "
              "one-unit hub with params; Connectivity delays (discrete, incl. 0.3/0.1) and gamma kernels ((d,s) with round-up and "
-             "inexact ratios); each unit's Euler trajectory against the spec of the explicit network with one node per unit and "
+             "inexact ratios), coupling-edge templates; the adaptive solver on a subset (matrices, scalar weights, gamma kernels, coupling "
+             "edges) against a fine-grid reference; each unit's Euler trajectory against the spec of the explicit network with one node per unit and "
              "one scalar edge per non-zero matrix entry; distinct = (scenario, seed)",
         sample_of=lambda c: {k: v for k, v in c.items() if k != "features"})
     driver.run_sequences(chk, "population-vs-explicit-network-in-sequence", _cases, _results, cases.case_fn, site="C16/population",
